@@ -1720,6 +1720,26 @@ def _identity_mirror_remover(n, fn):
     return ok and not other_writes
 
 
+def _wrapper_reregisters_on_attach(pm):
+    """a registry that forgets detached wrappers must learn them again when they are attached again (rollback, reset of a
+    simulation): the wrapper's own set_modeling_obj_container calls add_to_contextual_modeling_obj_containers(self) on
+    every path where the new container is not None"""
+    from ..paths import enumerate_paths, path_formula, consistent, parse
+    m = next((f for f in pm.own_methods("ContextualModelingObjectAttribute") if f.name == "set_modeling_obj_container"), None) \
+        if "ContextualModelingObjectAttribute" in pm.classes else None
+    if m is None or len(m.args.args) < 2:
+        return False
+    newp = m.args.args[1].arg
+    is_add = lambda c: isinstance(c, ast.Call) and isinstance(c.func, ast.Attribute) \
+        and c.func.attr == "add_to_contextual_modeling_obj_containers"
+    for path in enumerate_paths(m, is_add):
+        if path.end == "raise":
+            continue
+        if consistent(path_formula(path.conds, m), parse(f"{newp} is not None")) and not any(is_add(c) for c in path.calls()):
+            return False
+    return True
+
+
 @rule("R-EDGE")
 def r_edge(E):
     pm = E.pm
@@ -1758,7 +1778,7 @@ def r_edge(E):
                 if q not in EDGE_WRITERS[h] and _delegated(q, set(EDGE_WRITERS[h]), edge_callers):
                     continue
                 if q not in EDGE_WRITERS[h] and h == "contextual_modeling_obj_containers" and fn is not None \
-                        and _identity_mirror_remover(n, fn) and all(
+                        and _identity_mirror_remover(n, fn) and _wrapper_reregisters_on_attach(pm) and all(
                             c_.startswith("ContextualModelingObjectAttribute.") and c_.split(".")[-1] in (
                                 "set_modeling_obj_container", "__init__")
                             for c_ in edge_callers.get(fn.name, {"?"})):
